@@ -26,6 +26,9 @@ pub enum RowForm {
     Cols,
     /// `write_col` per cell, no `end_row` (only legal for the last row: finish ends it)
     ColsOpen,
+    /// the first cell(s) with `write_col`, the rest of the row with `write_row` (unusual but
+    /// legal: write_row completes the row that write_col opened); `usize` = cells via write_col
+    Mixed(usize),
 }
 
 #[derive(Clone, Debug, PartialEq, Serialize, Deserialize)]
@@ -193,6 +196,10 @@ pub struct ShimState {
     pub auto_ids: VecDeque<Option<(u32, usize)>>,
     /// leak (instead of drop) a RowWriter whose row-level call returned Err
     pub forget_on_refusal: bool,
+    /// per execution: how many parameters the shim pulls from the iterator (None / missing = all)
+    pub param_takes: VecDeque<Option<usize>>,
+    /// per result program (in order): after running it, return this tagged error from the callback
+    pub then_fail: VecDeque<Option<u32>>,
 }
 
 pub struct Shim {
@@ -299,6 +306,13 @@ impl Shim {
                                 RowForm::WriteRowRef => {
                                     logged!(self, cb, "write_row", at, rw.write_row(&row.cells))?;
                                 }
+                                RowForm::Mixed(k) => {
+                                    let k = k.min(row.cells.len());
+                                    for cell in &row.cells[..k] {
+                                        logged!(self, cb, "write_col", at, dispatch(cell, &mut ColSink(&mut rw)))?;
+                                    }
+                                    logged!(self, cb, "write_row", at, rw.write_row(row.cells[k..].to_vec()))?;
+                                }
                                 RowForm::Cols | RowForm::ColsOpen => {
                                     for cell in &row.cells {
                                         logged!(self, cb, "write_col", at, dispatch(cell, &mut ColSink(&mut rw)))?;
@@ -363,6 +377,10 @@ impl Shim {
             })
             .collect();
         self.run_program(cb, &prog, &columns, w)?;
+        if let Some(Some(tag)) = self.st.borrow_mut().then_fail.pop_front() {
+            // the shim reported its result and then gives the connection up
+            return Err(ShimError::Tagged(tag));
+        }
         Ok(())
     }
 
@@ -398,9 +416,11 @@ impl Shim {
 
     fn do_execute<W: io::Read + io::Write>(&mut self, id: u32, params: ParamParser<'_>, results: QueryResultWriter<'_, W>) -> Result<(), ShimError> {
         let convert = self.st.borrow().convert_params;
-        // as every caller in the repository does: iterate all parameters
+        // as every caller in the repository does: iterate all parameters - unless the case says
+        // the shim stops early (`take`)
+        let take = self.st.borrow_mut().param_takes.pop_front().flatten().unwrap_or(usize::MAX);
         let mut seen = Vec::new();
-        for p in params {
+        for p in params.into_iter().take(take) {
             let coltype = p.coltype as u8;
             let inner = match p.value.into_inner() {
                 ValueInner::NULL => Inner::Null,
